@@ -178,7 +178,7 @@ def rule_key(ctx):
         if isinstance(pk, ast.Call) and isinstance(pk.func, ast.Name):
             st = struct_of(ctx, pk.func.id)
             be = st is not None and st[1].startswith('>') and st[2] == 'pack'
-            ok = tag == b'U' and be and norm(pk.args[0]) == f.params[1]
+            ok = tag == b'U' and be and bool(f.params) and norm(pk.args[0]) == f.params[-1]        # (self, height) or a static (height)
             why = f'{norm(v)} (tag {tag!r}, struct {st})'
     ctx.check(ok, 'C15.ORDERKEY', ctx.key(f, None, 'big-endian height'),
               "undo key = b'U' + big-endian height (key order is numeric order; the pruning scan stops at the first kept height)",
@@ -301,7 +301,7 @@ def rule_reorg_unrefused(ctx, rule='C15.NOREFUSAL'):
         in_loop = any(isinstance(p_, (ast.For, ast.While)) for p_, _f in q.enclosing_chain(s, f.node))
         if isinstance(s, ast.Return) and tip_guard and in_loop:
             continue
-        bad.append(f'line {s.lineno} `{norm(s)[:60]}`' + (f' under {[norm(t)[:50] for t, b, _p in conds]}' if conds else ''))
+        bad.append(f'line {int(round(s.lineno))} `{norm(s)[:60]}`' + (f' under {[norm(t)[:50] for t, b, _p in conds]}' if conds else ''))
     ctx.check(not bad, rule, ctx.key(f, None, 'no refusal ahead of the per-block undo check'),
               'reorg_chain leaves early only when the block to undo is not the tip; missing undo information is detected per block',
               'reorg_chain can refuse or abandon the reorganisation itself: ' + '; '.join(bad[:2]), loc=ctx.loc(f, f.node))
